@@ -294,10 +294,11 @@ Proof.
 Qed.
 
 Section Fold.
-Variable A : Type.
-Variable f : A -> A -> A.
+Variables E R : Type.
+Variable cast : E -> R.
+Variable f : R -> E -> R.
 
-Theorem flat_slice_spec (a : list Z -> A) r s i : wf r s i ->
+Theorem flat_slice_spec (a : list Z -> E) r s i : wf r s i ->
   flat_slice a (slices_spec r s i) = spec_elems a r s i.
 Proof.
   intros H. unfold flat_slice, spec_elems.
@@ -308,7 +309,7 @@ Proof.
   reflexivity.
 Qed.
 
-Lemma reducer_fold_spec (l : list A) init : reducer f l init = fold_spec f l init.
+Lemma reducer_fold_spec (l : list E) init : reducer cast f l init = fold_spec cast f l init.
 Proof. destruct init, l; reflexivity. Qed.
 
 (* axis = None: the whole array in C order *)
@@ -318,7 +319,7 @@ Proof. induction s; cbn; congruence. Qed.
 Lemma merge_all r : forall i, merge (repeat true (length r)) i r = r.
 Proof. induction r; intros i; cbn; [reflexivity | now rewrite IHr]. Qed.
 
-Lemma spec_elems_all (a : list Z -> A) s i : pos s ->
+Lemma spec_elems_all (a : list Z -> E) s i : pos s ->
   spec_elems a (repeat true (length s)) s i = map a (lex_enum s).
 Proof.
   intros Hp. unfold spec_elems. rewrite reduced_extents_all.
@@ -328,19 +329,19 @@ Qed.
 
 (* ---------- F. the element theorem ---------- *)
 
-Theorem reduce_at_spec (a : list Z -> A) s ax kd init idx :
+Theorem reduce_at_spec (a : list Z -> E) s ax kd init idx :
   pos s -> axes_ok (zlen s) ax = true ->
   length idx = length (reduce_shape_spec s ax kd) ->
-  reduce_at f a s ax kd init idx = reduce_spec f a s ax kd init idx.
+  reduce_at cast f a s ax kd init idx = reduce_spec cast f a s ax kd init idx.
 Proof.
   intros Hp Hok Hi. unfold reduce_spec, reduce_shape_spec in *.
   assert (G : forall nax, normalize ax (zlen s) = Some nax ->
               mask_of (in_axis nax) 0 (length s) = red_mask (length s) ax ->
               match reduction_slices_loop (in_axis nax) kd idx s 0 0 with
-              | Some sl => reducer f (flat_slice a sl) init
+              | Some sl => reducer cast f (flat_slice a sl) init
               | None => None
               end =
-              fold_spec f (spec_elems a (red_mask (length s) ax) s
+              fold_spec cast f (spec_elems a (red_mask (length s) ax) s
                                       (if kd then drop_reduced (red_mask (length s) ax) idx else idx)) init).
   { intros nax Hn Hm. rewrite loop_mask, Hm.
     pose proof (red_mask_length (length s) ax) as Hl.
@@ -372,12 +373,12 @@ Proof.
   - now apply IH.
 Qed.
 
-Lemma spec_elems_nonempty (a : list Z -> A) mask s i : pos s -> spec_elems a mask s i <> [].
+Lemma spec_elems_nonempty (a : list Z -> E) mask s i : pos s -> spec_elems a mask s i <> [].
 Proof.
   intros Hp. unfold spec_elems.
   pose proof (reduced_extents_pos mask s Hp) as Hq.
-  pose proof (length_lex_enum _ Hq) as E. pose proof (prod_pos _ Hq).
-  intros C. apply (f_equal (@length A)) in C. rewrite map_length in C. cbn in C. lia.
+  pose proof (length_lex_enum _ Hq) as Hlen. pose proof (prod_pos _ Hq).
+  intros C. apply (f_equal (@length E)) in C. rewrite map_length in C. cbn in C. lia.
 Qed.
 
 End Fold.
@@ -443,20 +444,21 @@ Proof.
 Qed.
 
 Section Fold2.
-Variable A : Type.
-Variable f : A -> A -> A.
+Variables E R : Type.
+Variable cast : E -> R.
+Variable f : R -> E -> R.
 
-Theorem reduce_depends_on_mask (a : list Z -> A) s ax ax' kd init idx :
+Theorem reduce_depends_on_mask (a : list Z -> E) s ax ax' kd init idx :
   pos s -> axes_ok (zlen s) ax = true -> axes_ok (zlen s) ax' = true ->
   red_mask (length s) ax = red_mask (length s) ax' ->
   length idx = length (reduce_shape_spec s ax kd) ->
   remove_dims s ax kd = remove_dims s ax' kd /\
-  reduce_at f a s ax kd init idx = reduce_at f a s ax' kd init idx.
+  reduce_at cast f a s ax kd init idx = reduce_at cast f a s ax' kd init idx.
 Proof.
   intros Hp H1 H2 Hm Hi. split.
   - rewrite !remove_dims_spec by assumption. unfold reduce_shape_spec. now rewrite Hm.
-  - rewrite (reduce_at_spec A f a s ax kd init idx Hp H1 Hi).
-    rewrite (reduce_at_spec A f a s ax' kd init idx Hp H2)
+  - rewrite (reduce_at_spec E R cast f a s ax kd init idx Hp H1 Hi).
+    rewrite (reduce_at_spec E R cast f a s ax' kd init idx Hp H2)
       by (unfold reduce_shape_spec in *; now rewrite <- Hm).
     unfold reduce_spec. now rewrite Hm.
 Qed.
@@ -561,31 +563,31 @@ Proof.
   destruct p; cbn [nth]; [lia | apply IH; lia].
 Qed.
 
-Lemma accumulate_slices_spec (a : list Z -> A) s ax idx :
+Lemma accumulate_slices_spec (a : list Z -> E) s ax idx :
   0 <= ax < zlen s -> inb idx s ->
-  reducer f (flat_slice a (accumulate_slices ax idx 0)) None
-  = fold_spec f (map (fun k => a (set_at idx (Z.to_nat ax) k)) (zrange (nth (Z.to_nat ax) idx 0 + 1))) None.
+  reducer cast f (flat_slice a (accumulate_slices ax idx 0)) None
+  = fold_spec cast f (map (fun k => a (set_at idx (Z.to_nat ax) k)) (zrange (nth (Z.to_nat ax) idx 0 + 1))) None.
 Proof.
   intros Ha Hi. pose proof (inb_length _ _ Hi) as Hl. unfold zlen in *.
   set (p := Z.to_nat ax).
   assert (Hp : (p < length idx)%nat) by lia.
   assert (Hv : 1 <= nth p idx 0 + 1) by (pose proof (inb_nth_nonneg _ _ Hi p Hp); lia).
   rewrite (acc_slices_onehot ax idx 0 p Hp) by lia.
-  rewrite (flat_slice_spec A a _ _ _ (wf_onehot idx p _ Hp Hv)).
+  rewrite (flat_slice_spec E a _ _ _ (wf_onehot idx p _ Hp Hv)).
   unfold spec_elems. rewrite reduced_extents_onehot by assumption.
   rewrite lex_enum_1, map_map, reducer_fold_spec. f_equal.
   apply map_ext. intros x. now rewrite merge_onehot.
 Qed.
 
 (* any valid axis, either sign: wrap_axis is NumPy's normalisation on [-ndim, ndim) *)
-Theorem accumulate_at_spec (a : list Z -> A) s axis idx :
+Theorem accumulate_at_spec (a : list Z -> E) s axis idx :
   - zlen s <= axis < zlen s -> inb idx s ->
-  accumulate_at f a (zlen s) axis idx = accumulate_spec f a (zlen s) axis idx.
+  accumulate_at cast f a (zlen s) axis idx = accumulate_spec cast f a (zlen s) axis idx.
 Proof.
   intros Ha Hi. unfold accumulate_at, accumulate_spec.
-  assert (E : wrap_axis axis (zlen s) = np_norm (zlen s) axis)
+  assert (Ew : wrap_axis axis (zlen s) = np_norm (zlen s) axis)
     by (unfold wrap_axis, np_norm; destruct (axis <? 0); lia).
-  rewrite E. apply (accumulate_slices_spec a s); [|assumption].
+  rewrite Ew. apply (accumulate_slices_spec a s); [|assumption].
   unfold np_norm. destruct (Z.ltb_spec axis 0); lia.
 Qed.
 
@@ -649,8 +651,96 @@ Proof.
     cbn [mean_divisor]. now apply L.
 Qed.
 
-Lemma spec_elems_count {A} (a : list Z -> A) mask s i : pos s ->
+Lemma spec_elems_count {E} (a : list Z -> E) mask s i : pos s ->
   Z.of_nat (length (spec_elems a mask s i)) = prod (reduced_extents mask s).
 Proof.
   intros Hp. unfold spec_elems. rewrite map_length. apply length_lex_enum. now apply reduced_extents_pos.
+Qed.
+
+(* ---------- L. the fold in a concrete result type = NumPy's exact fold converted once ---------- *)
+From NM Require Import Dtype.
+
+(* operations compatible with reduction modulo m in the accumulator: + * - *)
+Definition ring_op (op : Z -> Z -> Z) : Prop :=
+  forall m a a' x, 0 < m -> a mod m = a' mod m -> (op a x) mod m = (op a' x) mod m.
+
+Lemma ring_add : ring_op Z.add.
+Proof.
+  intros m a a' x Hm H. rewrite <- (Z.add_mod_idemp_l a), <- (Z.add_mod_idemp_l a') by lia. now rewrite H.
+Qed.
+Lemma ring_mul : ring_op Z.mul.
+Proof.
+  intros m a a' x Hm H. rewrite <- (Z.mul_mod_idemp_l a), <- (Z.mul_mod_idemp_l a') by lia. now rewrite H.
+Qed.
+Lemma ring_sub : ring_op Z.sub.
+Proof.
+  intros m a a' x Hm H. rewrite <- (Zminus_mod_idemp_l a), <- (Zminus_mod_idemp_l a'). now rewrite H.
+Qed.
+
+Lemma swrap_mod w z : 0 < 2 ^ w -> (swrap w z) mod 2 ^ w = z mod 2 ^ w.
+Proof.
+  intros Hm. unfold swrap. cbv zeta. destruct (z mod 2 ^ w <? 2 ^ (w - 1)).
+  - apply Z.mod_mod. lia.
+  - rewrite Zminus_mod, Z_mod_same_full, Z.sub_0_r, !Z.mod_mod by lia. reflexivity.
+Qed.
+
+Lemma pow_bits_pos d : 0 < 2 ^ bits d.
+Proof. destruct d; cbn; lia. Qed.
+
+Lemma int_cast_mod d z : d <> Bool -> is_float d = false ->
+  (int_cast d z) mod 2 ^ bits d = z mod 2 ^ bits d.
+Proof.
+  intros Hb Hf. pose proof (pow_bits_pos d) as Hm.
+  destruct d; try contradiction; try discriminate; cbn [int_cast];
+    try (unfold wrap; apply Z.mod_mod; lia); apply swrap_mod; assumption.
+Qed.
+
+Lemma int_cast_congr d z z' : d <> Bool -> is_float d = false ->
+  z mod 2 ^ bits d = z' mod 2 ^ bits d -> int_cast d z = int_cast d z'.
+Proof.
+  intros Hb Hf H. destruct d; try contradiction; try discriminate; cbn [int_cast];
+    unfold wrap, swrap; rewrite H; reflexivity.
+Qed.
+
+Lemma typed_step_hom d op a x : d <> Bool -> ring_op op ->
+  typed_step d op (int_cast d a) x = int_cast d (op a x).
+Proof.
+  intros Hb Hop. unfold typed_step. destruct (is_float d) eqn:Hf.
+  - destruct d; try discriminate; reflexivity.
+  - apply int_cast_congr; auto. apply Hop; [apply pow_bits_pos | now apply int_cast_mod].
+Qed.
+
+Lemma typed_fold_hom d op l : d <> Bool -> ring_op op -> forall v,
+  fold_left (typed_step d op) l (int_cast d v) = int_cast d (fold_left op l v).
+Proof.
+  intros Hb Hop. induction l as [|x l IH]; intros v; cbn [fold_left]; [reflexivity|].
+  rewrite typed_step_hom by assumption. apply IH.
+Qed.
+
+Lemma typed_fold_spec_hom d op l init : d <> Bool -> ring_op op ->
+  fold_spec (int_cast d) (typed_step d op) l (option_map (int_cast d) init)
+  = option_map (int_cast d) (exact_fold op l init).
+Proof.
+  intros Hb Hop. unfold exact_fold. destruct init as [v|], l as [|x l]; cbn [fold_spec option_map];
+    try reflexivity; f_equal; now apply typed_fold_hom.
+Qed.
+
+Theorem typed_reduce_at_spec requested e op a s ax kd init idx :
+  reduce_dtype requested e <> Bool -> ring_op op ->
+  pos s -> axes_ok (zlen s) ax = true -> length idx = length (reduce_shape_spec s ax kd) ->
+  typed_reduce_at requested e op a s ax kd init idx = typed_reduce_spec requested e op a s ax kd init idx.
+Proof.
+  intros Hb Hop Hp Hok Hi. unfold typed_reduce_at, typed_reduce_spec. cbv zeta.
+  rewrite (reduce_at_spec Z Z _ _ a s ax kd _ idx Hp Hok Hi). unfold reduce_spec.
+  now apply typed_fold_spec_hom.
+Qed.
+
+Theorem typed_accumulate_at_spec requested e op a s axis idx :
+  reduce_dtype requested e <> Bool -> ring_op op ->
+  - zlen s <= axis < zlen s -> inb idx s ->
+  typed_accumulate_at requested e op a (zlen s) axis idx = typed_accumulate_spec requested e op a (zlen s) axis idx.
+Proof.
+  intros Hb Hop Ha Hi. unfold typed_accumulate_at, typed_accumulate_spec. cbv zeta.
+  rewrite (accumulate_at_spec Z Z _ _ a s axis idx Ha Hi). unfold accumulate_spec.
+  exact (typed_fold_spec_hom _ op _ None Hb Hop).
 Qed.
